@@ -1,6 +1,7 @@
 package keeper
 
 import (
+	authtypes "github.com/cosmos/cosmos-sdk/x/auth/types"
 	"context"
 	"errors"
 
@@ -117,8 +118,24 @@ func (h *VHandler) Handle(ctx context.Context, att types.Attestation, claim type
 	return nil
 }
 
+// VAccounts is the account keeper the deposit handler needs (module addresses only).
+type VAccounts struct{}
+
+func (VAccounts) GetSequence(ctx context.Context, addr sdk.AccAddress) (uint64, error) { return 0, nil }
+func (VAccounts) NewAccountWithAddress(ctx context.Context, addr sdk.AccAddress) sdk.AccountI {
+	return authtypes.NewBaseAccountWithAddress(addr)
+}
+func (VAccounts) GetModuleAddress(moduleName string) sdk.AccAddress { return authtypes.NewModuleAddress(moduleName) }
+func (VAccounts) GetModuleAccount(ctx context.Context, moduleName string) sdk.ModuleAccountI {
+	return authtypes.NewEmptyModuleAccount(moduleName)
+}
+func (VAccounts) GetAccount(ctx context.Context, addr sdk.AccAddress) sdk.AccountI {
+	return authtypes.NewBaseAccountWithAddress(addr)
+}
+
 // UseRealHandler installs the keeper's own attestation handler.
 func (e *VEnv) UseRealHandler() {
+	e.K.accountKeeper = VAccounts{}
 	e.K.AttestationHandler = AttestationHandler{keeper: &e.K}
 }
 
